@@ -339,7 +339,85 @@ def check_case(ctx, case):
         return True
     if k == "invlink":
         return check_invlink(ctx, case)
+    if k == "sphinxmethod":
+        return check_sphinx_method(ctx, case)
     return True
+
+
+_SPHINX_RENDERER = []
+
+
+def sphinx_renderer(named):
+    """a real SphinxRenderer whose document's env carries `named` as the intersphinx named inventory"""
+    from types import SimpleNamespace
+    from docutils.utils import new_document
+    from myst_parser.config.main import MdParserConfig
+    from myst_parser.mdit_to_docutils.sphinx_ import SphinxRenderer
+    from myst_parser.parsers.mdit import create_md_parser
+    cfg = MdParserConfig()
+    md = create_md_parser(cfg, SphinxRenderer)
+    doc = new_document("<c19>")
+    doc.settings.env = SimpleNamespace(intersphinx_cache={}, intersphinx_inventory={}, intersphinx_named_inventory=named,
+                                       docname="index", srcdir="")
+    md.renderer.setup_render({"document": doc, "myst_config": cfg}, {})
+    return md.renderer
+
+
+def check_sphinx_method(ctx, case):
+    """SphinxRenderer.get_inventory_matches on an intersphinx table given as an ORDERED list of
+    (inventory, 'domain:type', [(name, project, version, loc, text)]) - the order in which Sphinx filled the dicts -
+    queried several times on ONE renderer (any per-document cache shows up); expected: the entries whose coordinates
+    match, in that order."""
+    named = {}
+    for ik, dt, items in case["tables"]:
+        tbl = named.setdefault(ik, {}).setdefault(dt, {})
+        for n, proj, ver, loc, txt in items:
+            tbl[n] = (proj, ver, loc, txt)
+    flat = [(ik, dt.split(":", 1)[0], dt.split(":", 1)[1], n) + tuple(it) for ik, dts in named.items()
+            for dt, es in dts.items() for n, it in es.items()]
+    try:
+        r = sphinx_renderer(named)
+    except Exception as e:
+        ctx.fail("sphinxmethod:harness:" + type(e).__name__, case, f"cannot build a SphinxRenderer: {e!r}")
+        return False
+    for q in case["queries"]:
+        want = [(m[0], m[1], m[2], m[3], m[6]) for m in flat if all(q[i] is None or spec_match(q[i], m[i]) for i in range(4))]
+        try:
+            got = [(m.inv, m.domain, m.otype, m.name, m.loc) for m in
+                   r.get_inventory_matches(invs=q[0], domains=q[1], otypes=q[2], target=q[3])]
+        except Exception as e:
+            got = "!" + type(e).__name__ + ": " + str(e)[:100]
+        if got != want:
+            ctx.fail("invlink:sphinx-matches", case,
+                     f"SphinxRenderer.get_inventory_matches{tuple(q)!r} differs from the matching entries in inventory order",
+                     expected=repr(want)[:800], observed=repr(got)[:800])
+            return False
+    return True
+
+
+def gen_sphinx_method_case(rng):
+    doms = ["py", "std", "c", "a*"]
+    typs = ["function", "label", "doc", "class", "m"]
+    names = ["a", "ab", "item_a", "item_c", "b.c", "x*y"]
+    tables, seen = [], set()
+    for ik in rng.sample(["k", "proj", "z"], rng.randint(1, 2)):
+        for _ in range(rng.randint(1, 5)):
+            dt = rng.choice(doms) + ":" + rng.choice(typs)      # drawn independently: domains interleave
+            if (ik, dt) in seen:
+                continue
+            seen.add((ik, dt))
+            items = [[n, "P", "1", rng.choice(["p.html#$", "q.html", "r/" + n.replace("*", "") + ".html"]), rng.choice(["-", "T"])]
+                     for n in rng.sample(names, rng.randint(1, 3))]
+            tables.append([ik, dt, items])
+    pats = [["k", "*", "proj", None, "z*"], ["*", None, "py", "s*", "std", "a\\*"],
+            ["*", None, "*c*", "label", "f*", "doc"], ["*", "item_*", "a*", "a", "*b*", "x\\*y", "zz"]]
+    queries = []
+    for _ in range(rng.randint(1, 4)):
+        q = [rng.choice(pats[i]) for i in range(4)]
+        if q[3] is None:
+            q[3] = "*"
+        queries.append(q)
+    return {"kind": "sphinxmethod", "tables": tables, "queries": queries}
 
 
 def make_inv_bytes(entries, project="proj", version="1.0"):
@@ -461,6 +539,14 @@ def search(ctx):
         if i == 0:
             ctx.sample(case)
         check_case(ctx, case)
+    # the Sphinx front end's matcher on intersphinx tables whose 'domain:type' keys interleave domains
+    for i in range(ctx.budget(300, 3000, 3000)):
+        case = gen_sphinx_method_case(rng)
+        ctx.search_cases += 1
+        ctx.count("sphinx-method")
+        if len({t[1].split(":")[0] for t in case["tables"]}) > 1:
+            ctx.nontriv(("sphinx-method", i))
+        check_case(ctx, case)
 
 
 def replay(ctx, data):
@@ -487,7 +573,8 @@ LEVEL_TEXT = ("Proof (Coq 8.16, 14 theorems, all closed under the global context
               "correspondence of the extracted model with the implementation: all (pattern,name) pairs up to length 3/4 over "
               "'a b * \\ .' and 2/3 over regex metacharacters, random pairs, generated inventories x filter quadruples in both "
               "representations, single-link documents through the docutils front end with varied base URLs; (c) direct oracle: an "
-              "independent implementation of the documented semantics, brute-force filtering, documents with several inv: links.")
+              "independent implementation of the documented semantics, brute-force filtering, documents with several inv: links, and the "
+              "real SphinxRenderer.get_inventory_matches on generated intersphinx tables whose domain:type keys interleave domains.")
 LEVEL_NOTE = ("Trusted base: Coq kernel (no axioms; coqchk in the thorough tier); the translators gen/py2coq.py + gen/c19_wild.py / "
               "c19_filters.py / c19_link.py with their domain mappings (re.escape(c) -> PLit c, '.*' -> PStar, "
               "re.compile(r, re.DOTALL) -> (r, true); dict .items() loops -> list recursion; urlparse and markdown-it's "
